@@ -1,6 +1,6 @@
 #!/usr/bin/env python3
 """Regenerates MANIFEST.json from the table below (kept in one place so it stays valid)."""
-import json, os
+import json, os, re
 V = os.path.dirname(os.path.dirname(os.path.abspath(__file__)))
 
 T = ("Trusted: Lean kernel (+ propext, Classical.choice, Quot.sound), the hand-written model tied to /repo by differential "
@@ -23,8 +23,8 @@ CLAIMED = {
    note=T + "Guard of the replace-around theorems: not (empty gap at the end of the range with slice content after it) — the excluded shape is a recorded finding (C03-touching-empty-gap), no library operation emits it.",
    design="§5 C03"),
  "C04": dict(
-   technique="Lean 4 theorems: history bookkeeping invariant for any sequence of attempted steps; inverse maps; EXACT UNDO INCLUDING SUCCESS of replace steps (replace_undo, guard sidesCompatible; unguarded when a slice side is closed or compatibility is transitive), replace-around steps (guards gapFitsBack / sidesCompatibleAround / structure), attribute, doc-attribute and node-mark steps; guards tied exactly to the real code; effect-level correspondence of invert; histories replayed and undone",
-   text="21 kernel-checked theorems (Props/C04.lean; ~7 k lines in Proofs/Undo*, Reinsert, MarkupSuccess): the inverse of an applied step applies and restores the document, for all documents and slices, under explicit decidable guards each of which is shown necessary by a counterexample theorem evaluated in the model and reproduced on the real code (recorded findings: non-transitive join, text gap, structure flag, node marks).",
+   technique="Lean 4 theorems: history bookkeeping invariant for any sequence of attempted steps; inverse maps; EXACT UNDO INCLUDING SUCCESS of replace steps (replace_undo, guard sidesCompatible; unguarded when a slice side is closed or compatibility is transitive), replace-around steps (guards gapFitsBack / sidesCompatibleAround / structure), attribute, doc-attribute, node-mark and range mark steps (exact iff-guards removeMarkUndoable / addMarkUndoable); composition to whole histories (history_undo_of_steps, markHistory_undo for any successful list of add_mark/remove_mark calls, family_history_undo for replayed histories over all eight step kinds under compatTransB and TextLoop); guards tied exactly to the real code; effect-level correspondence of invert; histories replayed and undone",
+   text="{n} kernel-checked theorems (Props/C04.lean; ~9 k lines in Proofs/Undo*, Reinsert, MarkupSuccess, MarkUndo, MarkPlanUndo*, MarkHistory, HistoryUndo): the inverse of an applied step applies and restores the document, for all documents and slices, under explicit decidable guards each of which is shown necessary by a counterexample theorem evaluated in the model and reproduced on the real code (recorded findings: non-transitive join, text gap, structure flag, node marks, same-type mark order); single-step results are composed to histories of any length.",
    note=T + "The guards are Bool predicates of the model (PM/UndoGuard.lean) compared exactly with the same quantities computed from the real code on every generated case; guard true and real undo failing would be reported.",
    design="§5 C04"),
  "C05": dict(
@@ -34,8 +34,8 @@ CLAIMED = {
    design="§5 C05"),
  "C06": dict(
    technique="Lean 4 theorems compile_accepts / compile_live: for EVERY expression the automaton produced by the model of the real compiler (parser AST, nfa, null_from, dfa, BFS numbering) accepts exactly the expression's language and keeps exactly the extendable prefixes alive, plus compile_deadEnd; the model is tied exactly to the real compiler (AST, NFA, closures, automaton, accept/reject) on every generated expression; additionally a verified certificate checker re-proves equivalence by the kernel for the bundled expressions against the automata dumped from the running code (regenerated lean/Gen/DfaCerts.lean)",
-   text="14 kernel-checked theorems (Props/C06.lean; Proofs/Compile*.lean, Proofs/Regex.lean; semantics = Mathlib RegularExpression.matches') for all expressions and sequences of unbounded length, plus ~50 regenerated certificate theorems per run. The proof of the general theorem exposed two defects of the pinned code (`{0,}` loop on a shared node; local dead-end check), both repaired.",
-   note=T + "The grammar reader specParse (60 lines) is the specification of 'the expression read as a regular expression'; Expr.toRE(parse) = specParse is tied, not proved (the parser is `partial`).",
+   text="{n} kernel-checked theorems (Props/C06.lean; Proofs/Compile*.lean, Proofs/Regex.lean, Proofs/SpecParse.lean; semantics = Mathlib RegularExpression.matches') for all expressions and sequences of unbounded length, plus ~50 regenerated certificate theorems per run; schema construction (buildSchema) accepts exactly the well-formed, live specs and its automata accept the specified languages. The proof of the general theorem exposed two defects of the pinned code (`{0,}` loop on a shared node; local dead-end check), both repaired.",
+   note=T + "The grammar reader specParse (60 lines, total) is the specification of 'the expression read as a regular expression'; parse_agrees proves that the model of the code's parser reads every expression with plain numbers exactly as specParse does (PlainNumbers: what Python's int() accepts beyond ASCII digits is tied, not proved).",
    design="§5 C06"),
  "C07": dict(
    technique="Lean 4 theorems: valid_content / check / can_replace / can_replace_with / can_append / create_checked equal the definition of validity over the spliced child sequence; node-level tables of a compiled schema follow from the spec (compileSchema); exact correspondence of all predicates, of create_checked and of schema construction field by field",
@@ -58,19 +58,19 @@ CLAIMED = {
    note=T + "Largest trusted piece: the syntactic, intra-procedural escape analysis and its reviewed-site table; mutation through aliases made in another function, setattr or C extensions is found by the snapshot search only.",
    design="§5 C10"),
  "C11": dict(
-   technique="Lean 4 theorems over an executable model of replace_step incl. the Fitter as a state machine, fits_trivially and delete_range: the emitted step starts at `from`, extends the range only over close tokens (fit_range), inserts only an in-order subsequence of the requested text (fitter text invariant), hence content preservation for every fitted replace step and for delete_range as a whole; exact correspondence of the emitted step with the real replace_step / delete_range on every generated case; totality by search over the bundled family",
-   text="19 kernel-checked theorems (Props/C11.lean; Proofs/Fitter, FitterText, RangeOps, Respects). The Fitter model agrees with the real fitter on >10^5 generated requests per thorough run.",
-   note=T + "fitter_respects is partial for replace-around steps (one conjunct stays a monitored hypothesis); 'never raises' is decided by search (open finding C11-fitter-partial-node: clipboard-style slices); termination of the real loops by a per-call alarm.",
+   technique="Lean 4 theorems over an executable model of replace_step incl. the Fitter as a state machine, fits_trivially, delete_range, replace_range, replace_range_with and close_fragment: the emitted step starts at `from`, extends the range only over close tokens (fit_range), inserts only an in-order subsequence of the requested text (fitter text invariant), hence content preservation for every fitted replace step, for delete_range and for replace_range as wholes; TERMINATION of the fitting loop characterised exactly (fitStep_decreases, fitLoop_outOfFuel_exact: the model runs out of fuel iff the loop provably cycles; fitLoop_terminates under the decidable guard termGuard); TOTALITY proved for deletions (delete_total, deleteRange_total) and closed slices of leaf/text nodes (insertInline_total); exact correspondence of the emitted step with the real replace_step / delete_range / replace_range on every generated case, guards evaluated on every request; totality for other slices by search over the bundled family",
+   text="{n} kernel-checked theorems (Props/C11.lean; Proofs/Fitter, FitterText, RangeOps, ReplaceRange, Respects, FitMeasure, FitTerm, FitLoop, FitTotal, FitDelete, FitInline, FillOrder). The Fitter model agrees with the real fitter on >10^5 generated requests per thorough run.",
+   note=T + "fitter_respects is partial for replace-around steps (one conjunct stays a monitored hypothesis); 'never raises' for slices that get opened is proved only as far as fuel (fit_no_internal_partial) and otherwise decided by search (open finding C11-fitter-partial-node: clipboard-style slices); a divergence example outside the bundled family is proved in the model and reproduced on the real code in every run; termination of the real loops by a per-call alarm.",
    design="§5 C11"),
  "C12": dict(
-   technique="Lean 4 theorems over executable models of the four builders (lift, wrap, split, join) and all helpers (can_split, can_join, join_point, lift_target, find_wrapping, insert_point, drop_point, can_change_type): every built step is structural and, if it applies, preserves the text/leaf sequence exactly; returned positions/depths are in range; the helpers never raise on valid documents and in-range, aligned input; exact correspondence of every built step and every helper answer",
-   text="25 kernel-checked theorems (Props/C12.lean; Proofs/StructEdit, Structure, Structure2).",
-   note=T + "'An approved edit then succeeds' is decided by search on the bundled family (as the property quantifies); open findings: lift of nested list items, wrap ignoring marks, fitter-partial-node in the drop_point follow-up.",
+   technique="Lean 4 theorems over executable models of the four builders (lift, wrap, split, join) and all helpers (can_split, can_join, join_point, lift_target, find_wrapping, insert_point, drop_point, can_change_type): every built step is structural and, if it applies, preserves the text/leaf sequence exactly; returned positions/depths are in range; the helpers never raise on valid documents and in-range, aligned input; AN APPROVED EDIT SUCCEEDS for split, join, wrap and lift (canSplit_split_applies, canJoin_join_applies, findWrapping_wrap_succeeds, liftTarget_lift_applies) under decidable guards found by the proofs; exact correspondence of every built step, every helper answer and the guards",
+   text="{n} kernel-checked theorems (Props/C12.lean; Proofs/StructEdit, Structure, Structure2, SplitSuccess, JoinSuccess, WrapSuccess, LiftSuccess).",
+   note=T + "The success theorems carry guards (splitGuard, joinGuard, wrapGuard, liftGuard) that hold on the bundled family wherever the helper approves, are evaluated on every approved case, and are each shown necessary on exotic schemas; success after insert_point / drop_point is decided by search on the bundled family; open findings: lift of nested list items, wrap ignoring marks, fitter-partial-node in the drop_point follow-up.",
    design="§5 C12"),
  "C13": dict(
-   technique="Lean 4 theorems over executable models of the planners (add_mark, remove_mark incl. mark-type and all-marks forms, add/remove_node_mark, set_node_attribute, set_node_markup, clear_incompatible, set_block_type): token-level effect of the whole plan (documented add rule, nothing matching left after removal, structure/text and marks outside unchanged, node-level edits local, retyping keeps children); exact correspondence of the emitted step lists and final documents",
-   text="19 kernel-checked theorems (Props/C13.lean; Proofs/MarkPlan, MarkEffect).",
-   note=T + "planAddMark_exact carries the flat-range hypothesis (an inline node with content in the range makes the exact rule false in code and upstream; the general planAddMark_effect holds everywhere). The Fitter answers used by set_node_markup/set_block_type are recorded at run time and replayed to the model.",
+   technique="Lean 4 theorems over executable models of the planners (add_mark, remove_mark incl. mark-type and all-marks forms, add/remove_node_mark, set_node_attribute, set_node_markup, clear_incompatible, set_block_type): token-level effect of the whole plan (documented add rule, nothing matching left after removal, structure/text and marks outside unchanged, node-level edits local, retyping keeps children), the range planners never fail on valid documents (addMark_total, removeMark_total); the node planners are proved both against recorded Fitter answers and with the Fitter model plugged in (TypePlanFit: *_agrees, clearIncompatibleF_spec, setBlockTypeF_spec_plain); exact correspondence of the emitted step lists, final documents and Fitter consultations",
+   text="{n} kernel-checked theorems (Props/C13.lean; Proofs/MarkPlan, MarkEffect, MarkTotal, TypePlan, TypePlanFit, KeptChildren).",
+   note=T + "planAddMark_exact carries the flat-range hypothesis (an inline node with content in the range makes the exact rule false in code and upstream; the general planAddMark_effect holds everywhere). Where clear_incompatible consults the Fitter for fillers the theorem states exactly what is known of the answer (no text, close tokens only); for plain target types the Fitter is provably never consulted.",
    design="§5 C13"),
  "C14": dict(
    technique="Lean 4 theorems: add_to_set equals the documented rule, canonical form is an invariant of every add/remove sequence, check()'s mark test accepts exactly canonical sets, removal/membership/equality/filtering are the set operations; the exclusion and permission tables of a compiled schema follow from the spec (excluded_spec, markSet_spec, compile_accepts_iff); exact correspondence of every mark operation and of schema construction",
@@ -78,19 +78,19 @@ CLAIMED = {
    note=T,
    design="§5 C14"),
  "C15": dict(
-   technique="Lean 4 theorems: filler search sound and complete; wrapper search sound, COMPLETE and SHORTEST; create_and_fill returns a valid node containing the content in order, returns nothing exactly when no filling exists (LiveSchema), never dies internally; exact correspondence of fill_before, find_wrapping (same chain) and create_and_fill",
-   text="15 kernel-checked theorems (Props/C15.lean; Proofs/Fill, Wrap, CreateFill, MkNode).",
+   technique="Lean 4 theorems: filler search sound and complete; wrapper search sound, COMPLETE and SHORTEST; create_and_fill returns a valid node containing the content in order, returns nothing exactly when no filling exists (LiveSchema), never dies internally; the copies of these searches used by the Fitter, the planners and the HTML parser are proved equal to them (Proofs/Unify) so the theorems transfer; exact correspondence of fill_before, find_wrapping (same chain) and create_and_fill",
+   text="{n} kernel-checked theorems (Props/C15.lean; Proofs/Fill, Wrap, CreateFill, MkNode, Unify, FillOrder).",
    note=T + "Guards: deterministic automata, LiveSchema (what the repaired dead-end check of the schema constructor guarantees). Recursion of create_and_fill on ill-founded schemas is modelled by fuel with an explicit outOfFuel outcome.",
    design="§5 C15"),
  "C16": dict(
-   technique="Lean 4 theorems: a merged step yields the token sequence / document of the two steps; merged mark steps APPLY whenever the pair does (merge_succeeds_marks, unconditional equivalence merge_equiv_marks under TextLoop); merged flat replace steps apply (merge_succeeds_replace_flat); relational correspondence of merge; search over bundled and random schemas",
-   text="6 kernel-checked theorems (Props/C16.lean; Proofs/Merge, MarkMerge, FlatReplace).",
-   note=T + "Success of merged replace steps with open slices is decided by search; which pairs merge is not pinned by the property.",
+   technique="Lean 4 theorems: a merged step yields the token sequence / document of the two steps; merged mark steps APPLY whenever the pair does (merge_succeeds_marks, unconditional equivalence merge_equiv_marks under TextLoop); merged replace steps apply — flat slices in every schema (merge_succeeds_replace_flat), slices open on their outer sides and ranges across node boundaries under compatTransB (merge_succeeds_replace; merge_needs_guard shows the guard necessary); relational correspondence of merge; search over bundled and random schemas",
+   text="{n} kernel-checked theorems (Props/C16.lean; Proofs/Merge, MarkMerge, FlatReplace, MergeOpen, MergeRel, SpineCongr, ReplaceAligned).",
+   note=T + "compatTransB (compatible_content transitive) holds for every bundled-family schema and is evaluated through the driver on each; which pairs merge is not pinned by the property.",
    design="§5 C16"),
  "C17": dict(
-   technique="Lean 4 theorems: rebasing over a separated step never drops a step and shifts it exactly (replace, replace-around, markup steps); both orders give equal token sequences / documents for replace-replace, replace-node-step, markup-markup pairs and replace-mark pairs under the explicit guard ParentStable; exact correspondence of Step.map incl. overlapping pairs; convergence search",
-   text="16 kernel-checked theorems (Props/C17.lean; Proofs/Commute, CommuteMarkup).",
-   note=T + "'Both rebased steps apply' stays a hypothesis; convergence of replace-around against other steps is search only; open finding C17-parent-retyped (the guard ParentStable is necessary).",
+   technique="Lean 4 theorems: rebasing over a separated step never drops a step and shifts it exactly (replace, replace-around, markup steps, also inside a replace-around step's kept gap); both orders give equal token sequences / documents for replace-replace, replace-node-step, markup-markup, replace-around against replace / replace-around / node / mark steps, and replace-mark pairs under the explicit guard ParentStable; BOTH ORDERS APPLY (commute_succeeds_*) for replace-replace and replace vs. replace-around under the decidable commuteGuard; exact correspondence of Step.map incl. overlapping pairs and of the whole rebase-and-apply square; convergence search",
+   text="{n} kernel-checked theorems (Props/C17.lean; Proofs/Commute*, CommuteAround*, ContentBetweenToks).",
+   note=T + "Success of both orders is not yet proved for a partner inside a replace-around step's gap and for two replace-around steps (convergence is; decided by search there); open finding C17-parent-retyped (the guard ParentStable is necessary).",
    design="§5 C17"),
  "C18": dict(
    technique="Lean 4 theorems: a step whose range lies within an isolating node leaves everything outside untouched; covered_depths, delete_range's widened range, lift_target and can_split never cross an isolating ancestor (over executable models tied exactly); exact correspondence of Slice.max_open, the emitted steps and the helpers; literal token oracle",
@@ -98,9 +98,9 @@ CLAIMED = {
    note=T + "Open findings (upstream): the Fitter splits an isolating node when content cannot be placed; insert_point walks out of it; fitter-partial-node.",
    design="§5 C18"),
  "C19": dict(
-   technique="Lean 4 theorems for the logic of both directions: escaping is lossless, the serializer carries the text; context expressions match exactly the declarative reading (matchesContext_spec); the parser's placement core keeps every open context's match coherent with its content and finish yields a schema-valid document for every event sequence (placement_finish_valid); exact ties: serializer output, matches_context, and the placement core replayed from events recorded from real parses",
-   text="12 kernel-checked theorems (Props/C19.lean; Proofs/Dom, FromDom, Placement*).",
-   note=T + "NOT modelled: lxml parsing, CSS selector and regex matching, DOM walking — their termination and crash-freedom are decided by search with a per-call alarm. placement_finish_valid needs TextStable (counterexample schema recorded).",
+   technique="Lean 4 theorems for both directions: escaping is lossless, the serializer carries the text; context expressions match exactly the declarative reading (matchesContext_spec, context_rules_apply_exactly); the WHOLE PARSE is modelled — the DOM walk over an abstract DOM (rule and style matching order, whitespace rewrites, normalize_list, pending/active marks, the placement core) with proved termination — and parse_total, parse_valid (whatever parse returns is schema-valid), parse_no_internal (no internal error under decidable guards on schema, rules and DOM) are proved for every DOM and every oracle; exact ties: serializer output, matches_context, schema_rules order, and the whole parse (event list, final document) against real parses",
+   text="{n} kernel-checked theorems (Props/C19.lean; Proofs/Dom, FromDom, Placement*, DomWalk, DomWalkSafe, PlacementNoInternal).",
+   note=T + "Oracle boundary (NOT modelled, answers recorded from the real run and fed to the model): lxml's HTML tokenizer, CSS selector matching, get_attrs callables, parse_styles' regex, clear_mark callables; their termination and crash-freedom are decided by search with a per-call alarm. The export-import round trip is decided by search. parse_valid needs Det, TextStable, LeafOk (counterexample schemas recorded).",
    design="§5 C19"),
  "C20": dict(
    technique="Lean 4 theorems: find_diff_start/end return none iff equal and otherwise the common prefix/suffix length of the marked-up token sequences; exact correspondence incl. identity-sharing before/after pairs under a per-call alarm",
@@ -111,6 +111,11 @@ CLAIMED = {
 
 NOT_YET = {
 }
+
+def ntheorems(pid):
+    import re
+    src = open(os.path.join(V, "lean", "Props", pid + ".lean")).read()
+    return len(re.findall(r"^theorem ", src, re.M))
 
 def main():
     props = [json.loads(l) for l in open(os.path.join(V, "properties.jsonl"))]
@@ -127,7 +132,7 @@ def main():
                 "evidence_file": f"/verif/evidence/{pid}.json",
                 "replay_cmd_template": "./check --replay {path}",
                 "engine": "lean-proof+correspondence",
-                "level_claimed": {"category": "proof", "text": c["text"], "design_ref": c["design"]},
+                "level_claimed": {"category": "proof", "text": re.sub(r"^(\{n\}|\d+) kernel-checked", f"{ntheorems(pid)} kernel-checked", c["text"]), "design_ref": c["design"]},
                 "level_note": c["note"],
                 "technique": c["technique"],
             })
@@ -151,7 +156,7 @@ def main():
         }],
         "checks": checks,
         "not_applicable": na,
-        "notes": "See DESIGN.md. Fix commits in /repo (34) and the open findings are recorded in KNOWN_FINDINGS.jsonl; an open finding matches a violation only if its class predicate (harness/findings.py) holds and the tree under check behaves on that input exactly as the frozen copy of the library under /verif/reference (harness/reference.py). Seeded changes used to test the checks are under /verif/seeded (DESIGN.md §9).",
+        "notes": "See DESIGN.md. Fix commits in /repo (37) and the open findings are recorded in KNOWN_FINDINGS.jsonl; an open finding matches a violation only if its class predicate (harness/findings.py) holds and the tree under check behaves on that input exactly as the frozen copy of the library under /verif/reference (harness/reference.py). Seeded changes used to test the checks are under /verif/seeded (DESIGN.md §9).",
     }
     json.dump(m, open(os.path.join(V, "MANIFEST.json"), "w"), indent=1)
     print("claimed", [c["property_id"] for c in checks])
